@@ -36,6 +36,11 @@ struct Tok { dl: u32, dc: u32, sl: u32, sc: u32, src: u32, name: u32, range: boo
 fn tok_str(t: &Tok) -> String { format!("{}:{}:{}:{}:{}:{}:{}", t.dl, t.dc, t.sl, t.sc, t.src, t.name, if t.range { 1 } else { 0 }) }
 fn toks_str(ts: &[Tok]) -> String { ts.iter().map(tok_str).collect::<Vec<_>>().join(";") }
 fn raw_of(t: &sourcemap::Token) -> Tok { let r = t.get_raw_token(); Tok { dl: r.dst_line, dc: r.dst_col, sl: r.src_line, sc: r.src_col, src: r.src_id, name: r.name_id, range: r.is_range } }
+/// like build_map, but through the raw constructor and with every string used twice ("s0.js","s0.js","s1.js",...): equal strings, different indices
+fn build_map_dups(nsrc: u32, nn: u32, toks: &[Tok]) -> sourcemap::SourceMap {
+    let raw: Vec<sourcemap::RawToken> = toks.iter().map(|t| sourcemap::RawToken { dst_line: t.dl, dst_col: t.dc, src_line: t.sl, src_col: t.sc, src_id: t.src, name_id: t.name, is_range: t.range }).collect();
+    sourcemap::SourceMap::new(None, raw, (0..nn).map(|i| format!("n{}", i / 2).into()).collect(), (0..nsrc).map(|i| format!("s{}.js", i / 2).into()).collect(), None)
+}
 fn build_map(nsrc: u32, nn: u32, toks: &[Tok]) -> sourcemap::SourceMap {
     let mut b = sourcemap::SourceMapBuilder::new(None);
     for i in 0..nsrc { b.add_source(&format!("s{}.js", i)); }
@@ -57,7 +62,7 @@ fn gen_toks(r: &mut Rng, nsrc: u32, nn: u32, max: u64, ranges: bool) -> Vec<Tok>
 }
 fn codec_case(id: &str, nsrc: u32, nn: u32, toks: &[Tok]) {
     let res = catch_unwind(AssertUnwindSafe(|| {
-        let sm = build_map(nsrc, nn, toks);
+        let sm = if id.starts_with('d') { build_map_dups(nsrc, nn, toks) } else { build_map(nsrc, nn, toks) };
         let sorted: Vec<Tok> = sm.tokens().map(|t| raw_of(&t)).collect();
         let mut out = vec![]; sm.to_writer(&mut out).unwrap();
         let v: serde_json::Value = serde_json::from_slice(&out).unwrap();
@@ -139,7 +144,10 @@ fn run_codec(r: &mut Rng, n: u64, ranges: bool) {
     codec_case("x2", 1, 0, &[t(0,0,0,0,0,!0,false), t(0,0,0,0,0,!0,false), t(0,5,0,5,0,!0,ranges)]);
     codec_case("x3", 1, 0, &[t(0,5,0,0,!0,!0,false), t(0,5,1,0,!0,!0,false), t(0,9,1,0,0,!0,false)]);
     for pos in [0u32, 15, 16, 17, 31, 32, 33, 47, 48] { for line in [0u32, 1, 5] { let toks: Vec<Tok> = (0..50).map(|i| t(line, i, 0, i, 0, !0, ranges && i == pos)).collect(); codec_case(&format!("p{}_{}", pos, line), 1, 0, &toks); } }
-    for i in 0..n { let nsrc = r.below(4) as u32; let nn = r.below(4) as u32; let toks = gen_toks(r, nsrc, nn, if i % 10 == 0 { 120 } else { 12 }, ranges); codec_case(&format!("r{}", i), nsrc, nn, &toks); }
+    for i in 0..n { let nsrc = r.below(4) as u32; let nn = r.below(4) as u32; let toks = gen_toks(r, nsrc, nn, if i % 10 == 0 { 120 } else { 12 }, ranges);
+        // every fourth map has equal strings under different indices and many tokens on few positions
+        if i % 4 == 3 { let nsrc = 2 + r.below(3) as u32; let nn = 2 + r.below(3) as u32; let mut toks = gen_toks(r, nsrc, nn, 14, ranges); for t in toks.iter_mut() { t.dl %= 2; t.dc %= 2; t.sl %= 2; t.sc %= 2; } codec_case(&format!("d{}", i), nsrc, nn, &toks); }
+        else { codec_case(&format!("r{}", i), nsrc, nn, &toks); } }
 }
 fn run_lookup(r: &mut Rng, n: u64) {
     for i in 0..n {
@@ -174,8 +182,16 @@ fn run_lines(r: &mut Rng, n: u64) {
 fn run_adjust(r: &mut Rng, n: u64) {
     let t = |dl, dc, sl, sc| Tok { dl, dc, sl, sc, src: 0, name: !0, range: false };
     adjust_case("x0", &[t(0,5,1,1), t(0,5,2,2), t(0,10,3,3)], &[t(0,0,0,0)]);
+    // overlapping images: a later adjustment token with a smaller displacement (the result must still come out ordered)
+    adjust_case("x1", &[t(0,0,0,0), t(0,8,0,8), t(0,12,0,12)], &[t(0,0,0,0), t(0,5,0,10)]);
+    // a range token split by an adjustment boundary keeps its original position in both pieces
+    adjust_case("x2", &[Tok { dl: 0, dc: 0, sl: 3, sc: 4, src: 1, name: 2, range: true }], &[t(0,0,0,0), t(0,20,0,10)]);
     for i in 0..n {
-        let mut mk = |r: &mut Rng, by_src: bool| -> Vec<Tok> { let k = r.below(6); (0..k).map(|j| { let key = (r.below(3) as u32, r.below(6) as u32); let other = (r.below(3) as u32, r.below(8) as u32 + j as u32); if by_src { t(other.0, other.1, key.0, key.1) } else { t(key.0, key.1, other.0, other.1) } }).collect() };
+        // original side: any source / name / range flag; adjustment side: keys in original coordinates
+        let mut mk = |r: &mut Rng, by_src: bool| -> Vec<Tok> { let k = r.below(6); let wide = r.below(4) == 0; (0..k).map(|j| { let key = (r.below(3) as u32, r.below(if wide { 30 } else { 6 }) as u32); let other = (r.below(3) as u32, r.below(if wide { 30 } else { 8 }) as u32 + j as u32);
+            let mut x = if by_src { t(other.0, other.1, key.0, key.1) } else { t(key.0, key.1, other.0, other.1) };
+            if !by_src { x.src = if r.below(6) == 0 { !0 } else { r.below(4) as u32 }; x.name = if x.src != !0 && r.below(2) == 0 { r.below(4) as u32 } else { !0 }; x.range = r.below(3) == 0; }
+            x }).collect() };
         let o = mk(r, false); let a = mk(r, true); adjust_case(&format!("r{}", i), &o, &a);
     }
 }
@@ -203,13 +219,13 @@ fn map_obs(sm: &sourcemap::SourceMap) -> String {
         toks_str(&sm.tokens().map(|t| raw_of(&t)).collect::<Vec<_>>()))
 }
 fn gen_map(r: &mut Rng, sorted_sources: bool) -> sourcemap::SourceMap {
-    let spool = ["a.js", "b.js", "", "/abs/c.js", "http://x/d.js", "/abs/e/f.js", "a.js", "q/\u{e9}.js", "https:g.js", "http:h.js"];
+    let spool = ["a.js", "b.js", "", "/abs/c.js", "http://x/d.js", "/abs/e/f.js", "a.js", "q/\u{e9}.js", "https:g.js", "http:h.js", "/absolute/z.js", "/abs", "http://xy/w.js"];
     let npool = ["x", "y", "", "fn", "x"];
     let nsrc = 1 + r.below(4) as usize; let nn = r.below(4) as usize;
     let srcs: Vec<&str> = (0..nsrc).map(|i| if sorted_sources { spool[i] } else { spool[r.below(spool.len() as u64) as usize] }).collect();
     let names: Vec<&str> = (0..nn).map(|_| npool[r.below(npool.len() as u64) as usize]).collect();
     let mut toks = gen_toks(r, nsrc as u32, nn as u32, 10, true); toks.sort_by_key(|t| (t.dl, t.dc));
-    let contents: Vec<Option<std::sync::Arc<str>>> = (0..nsrc).map(|i| if r.below(2) == 0 { Some(format!("content{}", i).into()) } else { None }).collect();
+    let contents: Vec<Option<std::sync::Arc<str>>> = (0..nsrc).map(|i| match r.below(8) { 0 => Some("".into()), 1..=3 => Some(format!("content{}", i).into()), _ => None }).collect();
     let raw: Vec<sourcemap::RawToken> = toks.iter().map(|t| sourcemap::RawToken { dst_line: t.dl, dst_col: t.dc, src_line: t.sl, src_col: t.sc, src_id: t.src, name_id: t.name, is_range: t.range }).collect();
     let mut sm = sourcemap::SourceMap::new(if r.below(2) == 0 { Some("out.js".into()) } else { None }, raw, names.iter().map(|s| (*s).into()).collect(), srcs.iter().map(|s| (*s).into()).collect(), if r.below(3) == 0 { None } else { Some(contents) });
     if r.below(3) == 0 { sm.set_source_root(Some(["", "root", "root/", "webpack:///"][r.below(4) as usize])); }
@@ -241,29 +257,46 @@ fn run_setters(r: &mut Rng, n: u64) {
                        if catch_unwind(AssertUnwindSafe(|| sm.set_source_contents(k, c))).is_err() { panicked = true; break; } }
             }
         }
-        println!("r{}\tsetters\t{}\t{}\t{}", i, input, ops.join(";"), if panicked { "panic".to_string() } else { format!("ok {}", map_obs(&sm)) });
+        // serialisation writes the raw names plus the root; two save/load cycles change nothing
+        let (written, after2) = if panicked { ("-".to_string(), "-".to_string()) } else { match catch_unwind(AssertUnwindSafe(|| {
+            let mut o1 = vec![]; sm.to_writer(&mut o1).unwrap(); let v: serde_json::Value = serde_json::from_slice(&o1).unwrap();
+            let ws = v["sources"].as_array().map(|a| a.iter().map(|x| opt_hex(x.as_str())).collect::<Vec<_>>().join(",")).unwrap_or("?".into());
+            let wr = opt_hex(v.get("sourceRoot").and_then(|x| x.as_str()));
+            let m2 = sourcemap::SourceMap::from_slice(&o1).unwrap(); let mut o2 = vec![]; m2.to_writer(&mut o2).unwrap(); let m3 = sourcemap::SourceMap::from_slice(&o2).unwrap();
+            (format!("{}|{}", wr, ws), (0..m3.get_source_count()).map(|k| opt_hex(m3.get_source(k))).collect::<Vec<_>>().join(",")) })) { Ok(x) => x, Err(_) => ("panic".into(), "panic".into()) } };
+        println!("r{}\tsetters\t{}\t{}\t{}\t{}\t{}", i, input, ops.join(";"), written, after2, if panicked { "panic".to_string() } else { format!("ok {}", map_obs(&sm)) });
     }
 }
 fn run_ram(r: &mut Rng, n: u64) {
     use sourcemap::ram_bundle::*;
     let le = |x: u32| x.to_le_bytes();
     for i in 0..n {
-        // a bundle laid out from a small model, then possibly corrupted
-        let count = r.below(4) as usize; let startup: Vec<u8> = (0..1 + r.below(3)).map(|_| b'S').collect();
-        let mods: Vec<Option<Vec<u8>>> = (0..count).map(|_| if r.below(3) == 0 { None } else { Some((0..r.below(3)).map(|k| b'a' + k as u8).collect()) }).collect();
+        // a bundle laid out from an abstract one (module table with optional modules, non-empty startup code, any physical order), then possibly corrupted
+        let count = r.below(5) as usize; let startup: Vec<u8> = (0..1 + r.below(4)).map(|k| [b'S', 0xff, 0, b'\n'][k as usize % 4]).collect();
+        let mods: Vec<Option<Vec<u8>>> = (0..count).map(|_| if r.below(3) == 0 { None } else { Some((0..r.below(4)).map(|k| [b'a', 0xfe, 0x80, b'z'][k as usize]).collect()) }).collect();
+        // physical order of the module bodies: a random permutation
+        let mut order: Vec<usize> = (0..count).collect(); for k in (1..count).rev() { let j = r.below(k as u64 + 1) as usize; order.swap(k, j); }
+        let mut offs = vec![0u32; count]; let mut data = vec![]; let mut off = startup.len() as u32;
+        for &k in &order { if let Some(d) = &mods[k] { offs[k] = off; data.extend(d); data.push(0); off += d.len() as u32 + 1; } }
         let mut v = vec![]; v.extend(le(0xFB0BD1E5)); v.extend(le(count as u32)); v.extend(le(startup.len() as u32));
-        let mut off = startup.len() as u32; let mut data = vec![];
-        for m in &mods { match m { None => { v.extend(le(0)); v.extend(le(0)); } Some(d) => { v.extend(le(off)); v.extend(le(d.len() as u32 + 1)); data.extend(d); data.push(0); off += d.len() as u32 + 1; } } }
+        for (k, m) in mods.iter().enumerate() { match m { None => { v.extend(le(0)); v.extend(le(0)); } Some(d) => { v.extend(le(offs[k])); v.extend(le(d.len() as u32 + 1)); } } }
         v.extend(&startup); v.extend(&data);
-        match r.below(6) { 0 => { let k = r.below(v.len() as u64 + 1) as usize; v.truncate(k); } 1 => { let k = r.below(v.len() as u64) as usize; v[k] = [0, 1, 0xff, 0x7f][r.below(4) as usize]; } 2 => { if v.len() >= 8 { v[4..8].copy_from_slice(&le([0xffffffff, 5, 0x80000000][r.below(3) as usize])); } } _ => {} }
+        let corrupt = r.below(6);
+        match corrupt { 0 => { let k = r.below(v.len() as u64 + 1) as usize; v.truncate(k); } 1 => { let k = r.below(v.len() as u64) as usize; v[k] = [0, 1, 0xff, 0x7f][r.below(4) as usize]; }
+            2 => { if v.len() >= 8 { v[4..8].copy_from_slice(&le([0xffffffff, 5, 0x80000000][r.below(3) as usize])); } }
+            3 => { if count > 0 { let k = 12 + 8 * r.below(count as u64) as usize + 4 * r.below(2) as usize; let vl = v.len() as u32; v[k..k + 4].copy_from_slice(&le([0xffffffff, 0xfffffff0, vl, 0x7fffffff][r.below(4) as usize])); } }
+            _ => {} }
+        let abstract_descr = format!("{}:{}:{}", count, hex(&startup), mods.iter().map(|m| m.as_ref().map(|d| format!("={}", hex(d))).unwrap_or("none".into())).collect::<Vec<_>>().join(","));
         let out = match catch_unwind(AssertUnwindSafe(|| {
             let isb = is_ram_bundle_slice(&v);
             match RamBundle::parse_indexed_from_slice(&v) {
                 Err(_) => format!("err {}", isb),
-                Ok(b) => { let ms: Vec<String> = (0..4).map(|k| match b.get_module(k) { Ok(None) => "none".into(), Ok(Some(m)) => hex(m.data()), Err(_) => "err".to_string() }).collect();
-                    format!("ok {} {} {} {}", b.module_count(), b.startup_code().map(|s| hex(s)).unwrap_or("err".into()), ms.join(","), isb) }
+                Ok(b) => { let ms: Vec<String> = (0..6).map(|k| match b.get_module(k) { Ok(None) => "none".into(), Ok(Some(m)) => format!("={}", hex(m.data())), Err(_) => "err".to_string() }).collect();
+                    // the iterator is advanced a bounded number of steps only: a header may declare 2^32-1 modules
+                    let it: Vec<String> = b.iter_modules().take(8).map(|x| match x { Ok(m) => format!("{}={}", m.id(), hex(m.data())), Err(_) => "err".into() }).collect();
+                    format!("ok {} {} {} {} {}", b.module_count(), b.startup_code().map(|s| hex(s)).unwrap_or("err".into()), ms.join(","), isb, it.join(",")) }
             } })) { Ok(s) => s, Err(_) => "panic".into() };
-        println!("r{}\tram\t{}\t{}", i, hex(&v), out);
+        println!("r{}\tram\t{}\t{}\t{}\t{}", i, hex(&v), if corrupt < 4 { 1 } else { 0 }, abstract_descr, out);
     }
 }
 fn run_locate(r: &mut Rng, n: u64) {
@@ -367,6 +400,9 @@ fn run_decode(r: &mut Rng, n: u64, with_faults: bool) {
         let nlines = 1 + r.below(4); let mut mappings = String::new();
         let (mut ps, mut pl, mut pc, mut pn) = (0i64, 0i64, 0i64, 0i64);
         let fault = if with_faults && r.below(10) < 6 { 1 + r.below(13) } else { 0 };
+        // "extreme numbers": some documents use huge deltas (62-bit values, +-2^32, +-2^31) in the position fields, several times with the same sign
+        let huge = r.below(12) == 0; let hsign: i64 = if r.below(2) == 0 { 1 } else { -1 };
+        let hv = |r: &mut Rng| -> i64 { [(1i64 << 62) - 1, 1i64 << 61, 1i64 << 32, (1i64 << 32) - 1, 1i64 << 31, 3][r.below(6) as usize] };
         let mut fault_done = false; let mut nseg = 0;
         for li in 0..nlines {
             if li > 0 { mappings.push(';'); }
@@ -377,11 +413,13 @@ fn run_decode(r: &mut Rng, n: u64, with_faults: bool) {
                 // columns mostly increase; sometimes they go back (negative delta, unsorted segments, duplicate positions)
                 let col = if r.below(7) == 0 { pcol - r.below(pcol as u64 + 1) as i64 } else { pcol + if r.below(15) == 0 { 70000 } else { r.below(6) as i64 } }; let dcol = col - pcol; pcol = col;
                 let arity = if nsrc == 0 { 1 } else if nn == 0 { [1, 4][r.below(2) as usize] } else { [1, 4, 4, 5][r.below(4) as usize] };
+                let dcol = if huge && r.below(2) == 0 { let sg = if r.below(4) == 0 { -hsign } else { hsign }; sg * hv(r) } else { dcol };
                 let mut seg = String::new(); own_vlq(dcol, &mut seg); nseg += 1;
                 let hit = fault != 0 && !fault_done && r.below(3) == 0;
                 if arity >= 4 {
                     let s = r.below(nsrc as u64) as i64; let l = if r.below(15) == 0 { 4294967295 } else { r.below(5) as i64 }; let c = r.below(9) as i64;
-                    let (mut ds, dl, dc) = (s - ps, l - pl, c - pc);
+                    let (mut ds, mut dl, mut dc) = (s - ps, l - pl, c - pc);
+                    if huge { if r.below(2) == 0 { dl = hsign * hv(r); } if r.below(2) == 0 { dc = hsign * hv(r); } }
                     if hit && fault == 1 { ds = nsrc as i64 - ps; fault_done = true; }                  // index one past the end
                     if hit && fault == 2 { ds = -1 - ps; fault_done = true; }                           // negative index
                     if hit && fault == 3 { ds -= 4294967296; fault_done = true; }                       // wraps to a valid index in u32
@@ -494,7 +532,8 @@ fn run_hermes(r: &mut Rng, n: u64) {
                         let dn = en as i64 - pn; let dl = el as i64 - pl;
                         if dn != 0 || dl != 0 || r.below(2) == 0 { own_vlq(dn, &mut s); pn = en as i64; if dl != 0 || r.below(2) == 0 { own_vlq(dl, &mut s); pl = el as i64; } }
                     }
-                    let garbage = k == 2 && r.below(2) == 0; if garbage { s.push_str(",!"); }
+                    // an unparsable string: a foreign byte, or a value cut off after some complete values of the same segment
+                    let garbage = k == 2 && r.below(2) == 0; if garbage { s.push_str([",!", ",AAg", ",CDg", "g", ",AAA!", ";AAAAAAg", ",AAAAAAA"][r.below(6) as usize]); }
                     let mut arr = vec![serde_json::json!({"names": names, "mappings": s})];
                     if r.below(5) == 0 { arr.push(serde_json::json!({"names": ["other"], "mappings": "AAA"})); }
                     fb_json.push(serde_json::Value::Array(arr));
@@ -516,7 +555,11 @@ fn run_hermes(r: &mut Rng, n: u64) {
                 let after: Vec<String> = match catch_unwind(AssertUnwindSafe(|| h.clone().rewrite(&sourcemap::RewriteOptions::default()))) {
                     Ok(Ok(h2)) => (0..h2.get_token_count()).map(|k| match catch_unwind(AssertUnwindSafe(|| h2.get_scope_for_token(h2.get_token(k as usize).unwrap()).map(|s| s.to_string()))) { Ok(x) => opt_hex(x.as_deref()), Err(_) => "panic".into() }).collect(),
                     Ok(Err(_)) => vec!["err".into()], Err(_) => vec!["panic".into()] };
-                format!("ok {}~{}~{}", per_tok.join(","), per_off.join(","), after.join(",")) }
+                // C14, last sentence: the answers are unchanged by serialising and decoding the map again
+                let reser: Vec<String> = if h.tokens().all(|t| t.get_dst_line() < 100_000) { match catch_unwind(AssertUnwindSafe(|| { let mut o = vec![]; h.to_writer(&mut o).unwrap(); sourcemap::decode_slice(&o) })) {
+                    Ok(Ok(sourcemap::DecodedMap::Hermes(h3))) => (0..h3.get_token_count()).map(|k| match catch_unwind(AssertUnwindSafe(|| h3.get_scope_for_token(h3.get_token(k as usize).unwrap()).map(|s| s.to_string()))) { Ok(x) => opt_hex(x.as_deref()), Err(_) => "panic".into() }).collect(),
+                    Ok(Ok(_)) => vec!["other-kind".into()], Ok(Err(_)) => vec!["err".into()], Err(_) => vec!["panic".into()] } } else { per_tok.clone() };
+                format!("ok {}~{}~{}~{}", per_tok.join(","), per_off.join(","), after.join(","), reser.join(",")) }
             Ok(Ok(_)) => "ok other-kind".into(), Ok(Err(e)) => format!("err {}", err_name(&e)), Err(_) => "panic".into() };
         println!("r{}\thermes\t{}\t{}\t{}\t{}", i, descr, fb_descr.join("#"), offsets.iter().map(|x| x.to_string()).collect::<Vec<_>>().join(","), out);
     }
@@ -568,6 +611,13 @@ fn run_crash(r: &mut Rng, n: u64) {
                 // a valid skeleton …
                 m.insert("version".into(), serde_json::json!(3)); m.insert("sources".into(), serde_json::json!(["a.js", null, "b.js"])); m.insert("names".into(), serde_json::json!(["x", 7]));
                 m.insert("mappings".into(), serde_json::json!(["AAAA;AACAA,CAAE", "AAAA,C,EAAEC;;GAEA", "", ";;;A"][r.below(4) as usize]));
+                if r.below(4) == 0 { // running sums driven far out: the same huge delta several times, in one field or in all
+                    let big = [(1i64 << 62) - 1, -((1i64 << 62) - 1), 1i64 << 61, -(1i64 << 32), (1i64 << 32) - 1][r.below(5) as usize]; let which = r.below(4);
+                    let mut mp = String::new();
+                    for k in 0..(2 + r.below(5)) { if k > 0 { mp.push(if r.below(4) == 0 { ';' } else { ',' }); }
+                        own_vlq(if which == 0 { big } else { 1 }, &mut mp);
+                        if which > 0 { own_vlq(0, &mut mp); own_vlq(if which == 1 || which == 3 { big } else { 0 }, &mut mp); own_vlq(if which == 2 || which == 3 { big } else { 0 }, &mut mp); } }
+                    m.insert("mappings".into(), serde_json::json!(mp)); }
                 if r.below(2) == 0 { m.insert("sourcesContent".into(), serde_json::json!([null, "c", "d", "e"])); }
                 if r.below(3) == 0 { m.insert("rangeMappings".into(), serde_json::json!(["B", "", "/;;B"][r.below(3) as usize])); }
                 if r.below(3) == 0 { m.insert("x_facebook_sources".into(), serde_json::json!([[{"names": ["f", "g"], "mappings": "AAA,CC;EAE"}], null, []])); }
@@ -595,8 +645,15 @@ fn run_dataurl(r: &mut Rng, n: u64) {
         let out = match catch_unwind(AssertUnwindSafe(|| { let url = sm.to_data_url().unwrap(); let back = sourcemap::decode_data_url(&url);
                 let mut bytes = vec![]; sm.to_writer(&mut bytes).unwrap(); let direct = sourcemap::decode_slice(&bytes);
                 let show = |x: Result<sourcemap::DecodedMap, sourcemap::Error>| match x { Ok(sourcemap::DecodedMap::Regular(m)) => format!("ok {}", map_obs(&m)), Ok(_) => "ok other".into(), Err(e) => format!("err {}", err_name(&e)) };
-                (url.split(',').next().unwrap_or("").to_string(), show(back), show(direct)) })) {
-            Ok((pre, a, b)) => format!("{}\t{}\t{}", hex(pre.as_bytes()), a, b), Err(_) => "-\tpanic\tpanic".into() };
+                // the same URL placed in a sourceMappingURL comment of a generated file (either comment form, either line ending) and discovered from there
+                let nl = if i % 4 < 2 { "\n" } else { "\r\n" };
+                let text = format!("var a=1;{}function f(){{}}{}{} sourceMappingURL={}{}", nl, nl, ["//#", "//@"][(i % 2) as usize], url, if i % 3 == 0 { "" } else { nl });
+                let embedded = match sourcemap::locate_sourcemap_reference_slice(text.as_bytes()) { Ok(Some(rf)) => match rf.get_embedded_sourcemap() { Ok(Some(m)) => show(Ok(m)), Ok(None) => "not-a-data-url".into(), Err(e) => format!("err {}", err_name(&e)) }, Ok(None) => "no-ref".into(), Err(_) => "locate-err".into() };
+                // and through SourceView::sourcemap_reference
+                let sv = sourcemap::SourceView::new(text.clone().into());
+                let via_view = match sv.sourcemap_reference() { Ok(Some(rf)) => match rf.get_embedded_sourcemap() { Ok(Some(m)) => show(Ok(m)), Ok(None) => "not-a-data-url".into(), Err(e) => format!("err {}", err_name(&e)) }, Ok(None) => "no-ref".into(), Err(_) => "locate-err".into() };
+                (url.split(',').next().unwrap_or("").to_string(), show(back), show(direct), embedded, via_view) })) {
+            Ok((pre, a, b, c, d)) => format!("{}\t{}\t{}\t{}\t{}", hex(pre.as_bytes()), a, b, c, d), Err(_) => "-\tpanic\tpanic\tpanic\tpanic".into() };
         println!("d{}\tdataurl\t{}", i, out);
     }
 }
